@@ -137,6 +137,37 @@ fn bytes_json(b: &[u8]) -> String {
     }
 }
 
+/// A promoted constant that is a reference to a field-less enum value (`&TermKind::Iri`, as produced by
+/// `x == TermKind::Iri`): read the variant from the promoted body (works in generic functions, where
+/// const evaluation is "too generic").
+fn promoted_enum<'tcx>(tcx: TyCtxt<'tcx>, def: DefId, idx: Promoted) -> Option<(String, String, String)> {
+    if !def.is_local() {
+        return None;
+    }
+    let bodies = tcx.promoted_mir(def);
+    let body = bodies.get(idx)?;
+    let mut found = None;
+    let mut n = 0;
+    for bb in body.basic_blocks.iter() {
+        for st in &bb.statements {
+            if let StatementKind::Assign(b) = &st.kind {
+                let (_pl, rv) = &**b;
+                if let Rvalue::Aggregate(k, ops) = rv {
+                    n += 1;
+                    if let AggregateKind::Adt(adt_did, vidx, ..) = **k {
+                        let adt = tcx.adt_def(adt_did);
+                        if adt.is_enum() && ops.is_empty() {
+                            let discr = adt.discriminant_for_variant(tcx, vidx).val;
+                            found = Some((did(tcx, adt_did), adt.variant(vidx).name.to_string(), format!("{}", discr)));
+                        }
+                    }
+                }
+            }
+        }
+    }
+    if n == 1 { found } else { None }
+}
+
 fn const_json<'tcx>(tcx: TyCtxt<'tcx>, env: TypingEnv<'tcx>, c: &ConstOperand<'tcx>) -> String {
     let ty = c.const_.ty();
     let mut fields: Vec<(&str, String)> = vec![("ty", js(&tystr(ty)))];
@@ -144,6 +175,20 @@ fn const_json<'tcx>(tcx: TyCtxt<'tcx>, env: TypingEnv<'tcx>, c: &ConstOperand<'t
         fields.push(("from", js(&did(tcx, u.def))));
         if u.promoted.is_some() {
             fields.push(("promoted", format!("{}", u.promoted.unwrap().as_u32())));
+            if let ty::Ref(_, inner, _) = ty.kind() {
+                if let ty::Adt(a, _) = inner.kind() {
+                    if a.is_enum() {
+                        if let Some((e, v, d)) = promoted_enum(tcx, u.def, u.promoted.unwrap()) {
+                            fields.push(("kind", js("enumref")));
+                            fields.push(("enum", js(&e)));
+                            fields.push(("variant", js(&v)));
+                            fields.push(("v", js(&d)));
+                            fields.push(("dbg", js(&with_no_trimmed_paths!(format!("{}", c.const_)))));
+                            return jobj(&fields);
+                        }
+                    }
+                }
+            }
         }
     }
     if let ty::FnDef(d, args) = ty.kind() {
